@@ -240,3 +240,85 @@ package storagewrappers
 //@     after call storage.NewCombinedIterator returning r : combined = true ; combinedRes = r
 //@     before call storage.NewOrderedCombinedIterator args m, its : assert options.WithResultsSortedAscending && len(its) == 2 && ((its[0] == staticIt && its[1] == innerIt) || (its[1] == staticIt && its[0] == innerIt))
 //@     after call storage.NewOrderedCombinedIterator returning r : ordered = true ; orderedRes = r
+
+
+// ------------------------------------------------------------------ C09: a partially read result is never cached as complete
+// the read-through buffer is exactly the prefix read so far, in order; it is dropped (never cached) as soon as the
+// underlying iterator fails with anything but done/cancelled or the size limit is reached; a closing iterator yields
+// nothing; the tuple returned is the underlying iterator's
+//@ func (*cachedIterator).Next(c, ctx) (t, err)
+//@   property C09
+//@   option nosafety
+//@   option stable c
+//@   option defer_neutral
+//@   ensures @passThrough err == nil ==> nexted && nextErr == nil && t == nextT
+//@   ensures @appended err == nil && old(c.tuples) != nil && len(old(c.tuples)) + 1 < c.maxResultSize ==> len(c.tuples) == len(old(c.tuples)) + 1 && c.tuples[len(old(c.tuples))] == t
+//@   ensures @overflowDrops err == nil && old(c.tuples) != nil && len(old(c.tuples)) + 1 >= c.maxResultSize ==> len(c.tuples) == 0
+//@   ensures @failureDrops nexted && nextErr != nil && !errIs(nextErr, storage.ErrIteratorDone) && !errIs(nextErr, context.Canceled) && !errIs(nextErr, context.DeadlineExceeded) ==> len(c.tuples) == 0
+//@   monitor inner
+//@     ghost nexted = false
+//@     ghost nextT *openfgav1.Tuple = nil
+//@     ghost nextErr error = nil
+//@     after call storage.Iterator.Next | storage.TupleIterator.Next returning x, e : nexted = true ; nextT = x ; nextErr = e
+
+// the background completion on Stop: every tuple already read is put into the buffer before anything else is read,
+// the rest is read from the same iterator, and the buffer is flushed to the cache only when the underlying iterator
+// reported done (never after an error, a cancellation or an overflow), and only if no newer invalidation / entry exists
+//@ func (*cachedIterator).Stop$1()
+//@   property C09
+//@   option nosafety
+//@   option defer_neutral
+//@   loop 0 invariant added == $idx + 1
+//@   monitor drain
+//@     ghost added int = 0
+//@     ghost prefixDone = false
+//@     ghost freshChecked = false
+//@     ghost notInvalid = false
+//@     ghost lastDone = false
+//@     after call storagewrappers.findInCache returning e, ok : freshChecked = !ok
+//@     after call storagewrappers.isInvalidAt returning b : notInvalid = !b
+//@     after call (*storagewrappers.cachedIterator).addToBuffer args _, t : added = added + 1
+//@     after call storage.Iterator.Head | storage.TupleIterator.Head returning x, e : lastDone = errIs(e, storage.ErrIteratorDone)
+//@     before call (*storagewrappers.cachedIterator).flush : assert freshChecked && notInvalid && lastDone
+//@     before call (*singleflight.Group).Do args _, k, f : assert freshChecked && notInvalid && closureOf(f, "Stop$1$1")
+
+// the drain loop proper: flush only after the iterator reported done
+//@ func (*cachedIterator).Stop$1$1() (v, err)
+//@   property C09
+//@   option nosafety
+//@   monitor drain
+//@     ghost lastDone = false
+//@     after call storage.Iterator.Next | storage.TupleIterator.Next returning x, e : lastDone = errIs(e, storage.ErrIteratorDone)
+//@     before call (*storagewrappers.cachedIterator).flush : assert lastDone
+
+// what is cached is the buffer, stamped with the time the iterator was created (so that an invalidation after that
+// time makes the entry stale), under the iterator's key; nothing is cached without a buffer or after cancellation
+//@ func (*cachedIterator).flush(c)
+//@   property C09 C11
+//@   option nosafety
+//@   option stable c
+//@   monitor store
+//@     before call storage.InMemoryCache.Set args _, k, v, ttl : assert old(c.tuples) != nil && k == c.cacheKey
+//@     before call storage.InMemoryCache.Set args _, k, v, ttl : assert typeIs(v, "*storage.TupleIteratorCacheEntry") && as(v, "*storage.TupleIteratorCacheEntry").Tuples == old(c.records)
+//@     before call storage.InMemoryCache.Set args _, k, v, ttl : assert as(v, "*storage.TupleIteratorCacheEntry").LastModified == c.initializedAt
+
+// field elision: a field is blanked in the cached record exactly when the iterator knows it (same non-empty value);
+// everything else is copied verbatim
+//@ func (*cachedIterator).addToBuffer(c, t) (ok)
+//@   property C09
+//@   option nosafety
+//@   option stable c
+//@   ensures @noBuffer old(c.tuples) == nil ==> !ok && len(c.records) == len(old(c.records))
+//@   ensures @appended old(c.tuples) != nil && len(old(c.records)) + 1 < c.maxResultSize ==> ok && len(c.records) == len(old(c.records)) + 1 && c.records[len(old(c.records))] != nil
+//@   ensures @elided old(c.tuples) != nil && len(old(c.records)) + 1 < c.maxResultSize ==> c.records[len(old(c.records))].ObjectID == ((c.objectID != "" && c.objectID == tuple.SplitObject(t.GetKey().GetObject()).1) ? "" : tuple.SplitObject(t.GetKey().GetObject()).1) && c.records[len(old(c.records))].ObjectType == ((c.objectType != "" && c.objectType == tuple.SplitObject(t.GetKey().GetObject()).0) ? "" : tuple.SplitObject(t.GetKey().GetObject()).0) && c.records[len(old(c.records))].Relation == ((c.relation != "" && c.relation == t.GetKey().GetRelation()) ? "" : t.GetKey().GetRelation()) && c.records[len(old(c.records))].UserObjectType == ((c.userType != "" && c.userType == tuple.ToUserParts(t.GetKey().GetUser()).0) ? "" : tuple.ToUserParts(t.GetKey().GetUser()).0)
+//@   ensures @verbatim old(c.tuples) != nil && len(old(c.records)) + 1 < c.maxResultSize ==> c.records[len(old(c.records))].UserObjectID == tuple.ToUserParts(t.GetKey().GetUser()).1 && c.records[len(old(c.records))].UserRelation == tuple.ToUserParts(t.GetKey().GetUser()).2 && c.records[len(old(c.records))].ConditionName == t.GetKey().GetCondition().GetName() && c.records[len(old(c.records))].ConditionContext == t.GetKey().GetCondition().GetContext()
+
+// reconstruction: an elided (blank) field is filled from what the iterator knows; with the elision rule above a record
+// built by addToBuffer is turned back into the tuple it came from
+//@ func (*cachedTupleIterator).buildTuple(c, t) (res)
+//@   property C09
+//@   option nosafety
+//@   option stable c
+//@   ensures @object res != nil && res.Key != nil && res.Key.Object == tuple.BuildObject(old(c.objectType != "" ? c.objectType : t.ObjectType), old(c.objectID != "" ? c.objectID : t.ObjectID))
+//@   ensures @relation res != nil && res.Key != nil && res.Key.Relation == old(c.relation != "" ? c.relation : t.Relation)
+//@   ensures @user res != nil && res.Key != nil && res.Key.User == tuple.FromUserParts(old(c.userType != "" ? c.userType : t.UserObjectType), old(t.UserObjectID), old(t.UserRelation))
